@@ -99,7 +99,11 @@ func newScopeDeferred(rootProvider *provider, parent *scope, ctx context.Context
 // runInitializers calls the scoped services with no returns (initialization
 // functions). These need to be called when the scope is created.
 func (s *scope) runInitializers() error {
-	for _, descriptor := range s.rootProvider.voidReturnScopedDescriptors {
+	s.rootProvider.voidReturnScopedDescriptorsMu.RLock()
+	initializers := s.rootProvider.voidReturnScopedDescriptors
+	s.rootProvider.voidReturnScopedDescriptorsMu.RUnlock()
+
+	for _, descriptor := range initializers {
 		if _, err := s.createInstance(descriptor); err != nil {
 			return &ResolutionError{
 				ServiceType: descriptor.Type,
@@ -219,13 +223,25 @@ func (s *scope) CreateScope(ctx context.Context) (Scope, error) {
 		return nil, fmt.Errorf("failed to create child scope: %w", err)
 	}
 
-	// Track child
+	// Track child. The tables are nil once this scope or the provider has
+	// been closed: a creation that overlaps the Close reports the disposed
+	// error instead of registering a scope nobody would ever close.
 	s.childrenMu.Lock()
+	if s.children == nil {
+		s.childrenMu.Unlock()
+		_ = child.Close()
+		return nil, ErrScopeDisposed
+	}
 	s.children[child] = struct{}{}
 	s.childrenMu.Unlock()
 
 	// Track in provider
 	s.rootProvider.scopesMu.Lock()
+	if s.rootProvider.scopes == nil {
+		s.rootProvider.scopesMu.Unlock()
+		_ = child.Close()
+		return nil, ErrProviderDisposed
+	}
 	s.rootProvider.scopes[child] = struct{}{}
 	s.rootProvider.scopesMu.Unlock()
 
@@ -375,13 +391,18 @@ func (s *scope) getInstance(key instanceKey) (any, bool) {
 
 // setInstance caches an instance in this scope in a thread-safe manner.
 // It also tracks the instance if it implements the Disposable interface
-// for proper cleanup when the scope is closed.
-func (s *scope) setInstance(descriptor *Descriptor, key instanceKey, instance any) {
+// for proper cleanup when the scope is closed. If the scope was closed while
+// the instance was being constructed it reports ErrScopeDisposed.
+func (s *scope) setInstance(descriptor *Descriptor, key instanceKey, instance any) error {
 	switch descriptor.Lifetime {
 	case Singleton:
 		s.rootProvider.setSingleton(key, instance)
 	case Scoped:
 		s.instancesMu.Lock()
+		if s.instances == nil {
+			s.instancesMu.Unlock()
+			return ErrScopeDisposed
+		}
 		s.instances[key] = instance
 		s.instancesMu.Unlock()
 		fallthrough
@@ -392,6 +413,8 @@ func (s *scope) setInstance(descriptor *Descriptor, key instanceKey, instance an
 			s.disposablesMu.Unlock()
 		}
 	}
+
+	return nil
 }
 
 var (
@@ -502,7 +525,9 @@ func (s *scope) createInstance(descriptor *Descriptor) (any, error) {
 			Group: descriptor.Group,
 		}
 
-		s.setInstance(descriptor, key, instance)
+		if err := s.setInstance(descriptor, key, instance); err != nil {
+			return nil, err
+		}
 		s.shareWithAliases(descriptor, instance)
 		return instance, nil
 	}
@@ -547,7 +572,9 @@ func (s *scope) createInstance(descriptor *Descriptor) (any, error) {
 			Key:   descriptor.Key,
 			Group: descriptor.Group,
 		}
-		s.setInstance(descriptor, key, emptyStruct)
+		if err := s.setInstance(descriptor, key, emptyStruct); err != nil {
+			return nil, err
+		}
 		return emptyStruct, nil
 	}
 
@@ -573,6 +600,7 @@ func (s *scope) createInstance(descriptor *Descriptor) (any, error) {
 
 		// Find the primary service to return
 		var primaryService any
+		var storeErr error
 		for _, reg := range registrations {
 			value := reg.Value
 
@@ -608,7 +636,14 @@ func (s *scope) createInstance(descriptor *Descriptor) (any, error) {
 				Group: regDescriptor.Group,
 			}
 
-			s.setInstance(regDescriptor, key, value)
+			// Keep going on failure so that every output is accounted for
+			if err := s.setInstance(regDescriptor, key, value); err != nil {
+				storeErr = err
+			}
+		}
+
+		if storeErr != nil {
+			return nil, storeErr
 		}
 
 		if primaryService == nil {
@@ -623,6 +658,7 @@ func (s *scope) createInstance(descriptor *Descriptor) (any, error) {
 
 	// Handle multi-return constructors
 	if descriptor.MultiReturnIndex >= 0 {
+		var storeErr error
 		for _, ret := range info.Returns {
 			if ret.IsError {
 				continue
@@ -651,7 +687,14 @@ func (s *scope) createInstance(descriptor *Descriptor) (any, error) {
 				Group: serviceDescriptor.Group,
 			}
 
-			s.setInstance(serviceDescriptor, key, value)
+			// Keep going on failure so that every output is accounted for
+			if err := s.setInstance(serviceDescriptor, key, value); err != nil {
+				storeErr = err
+			}
+		}
+
+		if storeErr != nil {
+			return nil, storeErr
 		}
 
 		return results[descriptor.MultiReturnIndex].Interface(), nil
@@ -671,7 +714,9 @@ func (s *scope) createInstance(descriptor *Descriptor) (any, error) {
 		Group: descriptor.Group,
 	}
 
-	s.setInstance(descriptor, key, instance)
+	if err := s.setInstance(descriptor, key, instance); err != nil {
+		return nil, err
+	}
 	s.shareWithAliases(descriptor, instance)
 	return instance, nil
 }
@@ -697,7 +742,9 @@ func (s *scope) shareWithAliases(descriptor *Descriptor, instance any) {
 			p.singletonKeysMu.Unlock()
 		case Scoped:
 			s.instancesMu.Lock()
-			s.instances[key] = instance
+			if s.instances != nil {
+				s.instances[key] = instance
+			}
 			s.instancesMu.Unlock()
 		}
 	}
